@@ -342,7 +342,7 @@ func c18ShareCount(c *Ctx) *RuleResult {
 				}
 				switch x := ast.Unparen(g.Cond).(type) {
 				case *ast.BinaryExpr:
-					if x.Op == token.GTR && fieldOf(info, x.X) == want && exprStr(x.Y) == "0" {
+					if (x.Op == token.GTR || x.Op == token.NEQ) && fieldOf(info, x.X) == want && exprStr(x.Y) == "0" {
 						okG = true
 					}
 				case *ast.CallExpr:
@@ -359,6 +359,11 @@ func c18ShareCount(c *Ctx) *RuleResult {
 			return true
 		})
 	}
+	leavesF := p.LookupField(nfsPkg, "leavesToClose", "leaves")
+	schedulers := mayDo(units, func(x *FuncUnit, n ast.Node) bool {
+		as, ok := n.(*ast.AssignStmt)
+		return ok && len(as.Lhs) == 1 && fieldOf(x.Info(), as.Lhs[0]) == leavesF
+	})
 	up := p.LookupFunc(nfsPkg, "shareCount.upgrade")
 	down := p.LookupFunc(nfsPkg, "shareCount.downgrade")
 	for _, cs := range CallsTo(units, up, down) {
@@ -376,6 +381,12 @@ func c18ShareCount(c *Ctx) *RuleResult {
 					ast.Inspect(x.Body, func(m ast.Node) bool {
 						if as, ok := m.(*ast.AssignStmt); ok && len(as.Lhs) == 1 && strings.HasSuffix(exprStr(as.Lhs[0]), ".leaves") {
 							appended = true
+						}
+						// ... or through a helper that appends to the list of leaves to close
+						if hc, ok := m.(*ast.CallExpr); ok {
+							if fn := calleeOf(u.Info(), hc); fn != nil && schedulers[fn] {
+								appended = true
+							}
 						}
 						return true
 					})
@@ -486,6 +497,6 @@ func init() {
 		Level:       "other",
 		Explanation: "Structural necessary conditions of 'open and lock state is accounted for and fully reclaimed': files are closed only through closeAll / temporary-open cleanups and never under a program lock; scheduled leaves are closed on every path; cleanup functions and client holds are discharged exactly once or handed over; opens/closes follow the shared reader/writer counters and every non-zero counter result schedules a close; every state map is emptied by code reachable from lease expiry; confirmed back-references are only cleared by the confirmed record itself; removal asserting 'no locks' is gated (shared with C20). The numerical balance of opens versus closes over all multi-client histories is not decided.",
 		Assumptions: []string{"the lock model of C14", "virtual.Leaf implementations balance their own VirtualOpenSelf/VirtualClose"},
-		Rules:       []RuleFunc{c18CloseSites, c18Cleanup, c18ShareCount, c18Reapers, c20Count, c18PoolEntry, c18EnterOnly, c18Unused},
+		Rules:       []RuleFunc{c18CloseSites, c18Cleanup, c18ShareCount, c18Reapers, c20Count, c18PoolEntry, c18EnterOnly, c18Unused, c18OpenAccounted, c18FileHandleReset},
 	})
 }
